@@ -337,8 +337,94 @@ func c15Gen(rng *sim.Rand, tier string) interface{} {
 		if total > 40 && sc.DelayUs[i] > 1000 {
 			sc.DelayUs[i] = 1000
 		}
+		// keep the link much faster than the retransmission rate: a link that
+		// is slower keeps the outbound queue full for ever, and the simulated
+		// mutex (no starvation freedom, unlike sync.Mutex) then lets the resend
+		// ticker starve the PUBACK handler of the session lock.
+		if sc.Seg[i] > 0 && sc.Seg[i] < 16 && sc.DelayUs[i] > 1000 {
+			sc.DelayUs[i] = 1000
+		}
 	}
 	return sc
+}
+
+// c15Shrink proposes scenarios with one scalar knob reset to its plainest value.
+func c15Shrink(sci interface{}) []interface{} {
+	sc, ok := sci.(*c15Scenario)
+	if !ok {
+		return nil
+	}
+	raw, err := json.Marshal(sc)
+	if err != nil {
+		return nil
+	}
+	var out []interface{}
+	variant := func(edit func(c *c15Scenario) bool) {
+		c := &c15Scenario{}
+		if json.Unmarshal(raw, c) != nil {
+			return
+		}
+		if edit(c) {
+			out = append(out, c)
+		}
+	}
+	variant(func(c *c15Scenario) bool {
+		ch := c.NetBuf != 0 || c.Seg != [2]int{} || c.DelayUs != [2]int{}
+		c.NetBuf, c.Seg, c.DelayUs = 0, [2]int{}, [2]int{}
+		return ch
+	})
+	variant(func(c *c15Scenario) bool { ch := c.Limit != 0 || c.PipeYield; c.Limit, c.PipeYield = 0, false; return ch })
+	variant(func(c *c15Scenario) bool { ch := !c.WaitReady; c.WaitReady = true; return ch })
+	for i := range sc.Clients {
+		i := i
+		variant(func(c *c15Scenario) bool {
+			ch := c.Clients[i].StallAfter != 0 || c.Clients[i].StallMs != 0
+			c.Clients[i].StallAfter, c.Clients[i].StallMs = 0, 0
+			return ch
+		})
+		for j := range sc.Clients[i].Acks {
+			j := j
+			variant(func(c *c15Scenario) bool {
+				a := &c.Clients[i].Acks[j]
+				ch := *a != c15Ack{}
+				*a = c15Ack{}
+				return ch
+			})
+		}
+		for j := range sc.Clients[i].Ops {
+			j := j
+			variant(func(c *c15Scenario) bool {
+				o := &c.Clients[i].Ops[j]
+				ch := o.GapMs != 0
+				o.GapMs = 0
+				return ch
+			})
+		}
+	}
+	for i := range sc.Publishers {
+		for j := range sc.Publishers[i].Pubs {
+			i, j := i, j
+			variant(func(c *c15Scenario) bool {
+				p := &c.Publishers[i].Pubs[j]
+				ch := p.Burst > 1
+				p.Burst = 1
+				return ch
+			})
+			variant(func(c *c15Scenario) bool {
+				p := &c.Publishers[i].Pubs[j]
+				ch := p.Burst > 3
+				p.Burst = p.Burst / 2
+				return ch
+			})
+			variant(func(c *c15Scenario) bool {
+				p := &c.Publishers[i].Pubs[j]
+				ch := p.GapMs != 0 || p.Gated || p.B64 || !p.Dist
+				p.GapMs, p.Gated, p.B64, p.Dist = 0, false, false, true
+				return ch
+			})
+		}
+	}
+	return out
 }
 
 // ---- reference: MQTT 3.1.1 §4.7 filter matching -----------------------------
@@ -1454,6 +1540,7 @@ func TestVerifC15(t *testing.T) {
 		Gen:      c15Gen,
 		New:      func() interface{} { return &c15Scenario{} },
 		Exec:     c15Exec,
+		Shrink:   c15Shrink,
 		MaxSteps: 600000,
 		Rule: "scenario = 2-6 raw MQTT clients with 1-6 overlapping filters of QoS 0/1 over 1-4 topics (1-2 SUBSCRIBE packets, late re-subscriptions), per-client PUBACK behaviours (prompt, omit k, delay, duplicate, +PINGREQ), optional read stall, client PUBLISH ops; 1-2 publishers with 1-8 HTTP publishes each (QoS 0/1, bursts up to 120, gated or not), limiter/pipeline-drop knobs, simnet buffer/segment/latency plan; " +
 			"non-trivial = some message had >=2 eligible subscribers and (a QoS1 message had both eligible and lower-QoS subscribers, or a retransmission was observed); distinct = distinct (final subscriptions, per-client sequence of received messages with copy counts) signatures",
